@@ -341,8 +341,28 @@ fn diff_spec_tensor(t: &Tensor, want: &Value) -> Option<String> {
 }
 
 fn same_shape_random(t: &Tensor, rng: &mut Rng) -> Tensor {
+    same_shape_filled(t, rng, None)
+}
+
+/// `uniform`: every element of the tensor is that one constant (all operands -0.0, all operands near the largest finite
+/// value, ...: the positions where a shortcut in an accumulation shows).
+fn same_shape_filled(t: &Tensor, rng: &mut Rng, uniform: Option<f32>) -> Tensor {
     use neurons::tensor::Data;
     let mut r = t.clone();
+    if let Some(c) = uniform {
+        fn set(d: &mut Data, c: f32) {
+            match d {
+                Data::Single(a) => a.iter_mut().for_each(|x| *x = c),
+                Data::Double(a) => a.iter_mut().flatten().for_each(|x| *x = c),
+                Data::Triple(a) => a.iter_mut().flatten().flatten().for_each(|x| *x = c),
+                Data::Quadruple(a) => a.iter_mut().flatten().flatten().flatten().for_each(|x| *x = c),
+                Data::Nested(ts) => ts.iter_mut().for_each(|t| set(&mut t.data, c)),
+                _ => (),
+            }
+        }
+        set(&mut r.data, c);
+        return r;
+    }
     fn fill(d: &mut Data, rng: &mut Rng) {
         // ordinary magnitudes, and now and then a finite value that is awkward: zeros of both signs, subnormals, values
         // whose sum or product overflows ("all finite contents")
@@ -397,7 +417,9 @@ fn native(op: &str, a: f32, bs: &[f32], extra: &Value) -> f32 {
         "mul" => a * bs[0],
         "hadamard" => a * bs[0] * extra.as_i64().unwrap() as f32,
         "div" => a / num(extra),
-        "mean" => (a + bs.iter().sum::<f32>()) / (bs.len() + 1) as f32,
+        // (the sum of the OTHER operands is folded from its first term: no additive identity enters, so the sign of an
+        // all-zero sum is the operands')
+        "mean" => (a + bs[1..].iter().fold(bs[0], |s, b| s + b)) / (bs.len() + 1) as f32,
         "clamp" => a.clamp(extra[0].as_i64().unwrap() as f32, extra[1].as_i64().unwrap() as f32),
         _ => unreachable!(),
     }
@@ -442,8 +464,12 @@ pub fn replay_arith(case: &Value, rep: &mut Report, rng: &mut Rng) {
             // Float mode: same operation and shapes, harness-chosen floats, every element one IEEE operation.
             // (not for lists with optional entries: their element positions depend on the presence patterns)
             if matches!(op, "add" | "sub" | "mul" | "hadamard" | "div" | "mean" | "clamp") && !matches!(acc.data, neurons::tensor::Data::NestedOptional(_)) {
-                let fa = same_shape_random(&acc, rng);
-                let fargs: Vec<Tensor> = args.iter().map(|t| same_shape_random(t, rng)).collect();
+                // (twice: seeded contents, then every operand filled with ONE awkward constant)
+                const UNIFORM: [f32; 6] = [-0.0, 0.0, 3.0e38, -3.0e38, 1.0e-40, 16777217.0];
+                let constant = UNIFORM[rng.below(6) as usize];
+                for uniform in [None, Some(constant)] {
+                let fa = same_shape_filled(&acc, rng, uniform);
+                let fargs: Vec<Tensor> = args.iter().map(|t| same_shape_filled(t, rng, uniform)).collect();
                 match apply_arith(&fa, op, &fargs, &step["extra"]) {
                     Ok(fr) => {
                         let a = flat(&fa);
@@ -458,7 +484,10 @@ pub fn replay_arith(case: &Value, rep: &mut Report, rng: &mut Rng) {
                         // compared within a rounding bound; everything else is a single IEEE operation per element)
                         let several = op == "mean" && bs.len() >= 2;
                         let agree = |g: f32, w: f32| {
-                            if several {
+                            if several && uniform.map(|c| c == 0.0).unwrap_or(false) {
+                                // zeros of one sign only: whatever the order of the additions, the IEEE sum keeps that sign
+                                g.to_bits() == w.to_bits()
+                            } else if several {
                                 (g.is_nan() && w.is_nan()) || g == w || (g - w).abs() <= 4.0 * f32::EPSILON * w.abs().max(f32::MIN_POSITIVE) || (!w.is_finite() || !g.is_finite())
                             } else {
                                 g.to_bits() == w.to_bits() || (g.is_nan() && w.is_nan())
@@ -479,6 +508,7 @@ pub fn replay_arith(case: &Value, rep: &mut Report, rng: &mut Rng) {
                         rep.mismatch("C15", "float_panic", &id, json!({"step": i, "op": op, "panic": e}), case);
                         return;
                     }
+                }
                 }
             }
             // Float mode for the products: the outer product and the transpose are exact element by element; the
